@@ -1,6 +1,7 @@
 package rules
 
 import (
+	"go/ast"
 	"fmt"
 	"go/token"
 	"go/types"
@@ -970,4 +971,33 @@ func checkDecodedValuesArePieces(p *core.Program, r *core.Report, dec *ssa.Funct
 			why+": bytes that are not valid UTF-8 come back as U+FFFD, so the reconstructed token values differ from the original ones")
 	})
 	r.Floor("R11.5", "token value stores in the decoder", n, 3)
+	// and they are read back unchanged: Token's accessors return the stored fields
+	nAcc := 0
+	for _, fn := range p.LibFuncs() {
+		if fn.Signature.Recv() == nil || fn.Parent() != nil || core.NamedOf(fn.Signature.Recv().Type()) != core.ModulePath+".Token" {
+			continue
+		}
+		if fn.Signature.Params().Len() != 0 || fn.Signature.Results().Len() != 1 || !ast.IsExported(fn.Name()) {
+			continue
+		}
+		nAcc++
+		for _, ret := range core.Returns(fn) {
+			okF := false
+			switch x := ret.Results[0].(type) {
+			case *ssa.Field:
+				okF = x.X == ssa.Value(fn.Params[0])
+			case *ssa.UnOp:
+				if fa, isFA := x.X.(*ssa.FieldAddr); isFA {
+					if al, isAl := fa.X.(*ssa.Alloc); isAl && paramCopiedInto(al) == 0 {
+						okF = true
+					}
+					if fa.X == ssa.Value(fn.Params[0]) {
+						okF = true
+					}
+				}
+			}
+			r.Check(okF, "R11.5", core.FuncName(fn), "Token accessor returns the stored field unchanged", p.InstrPos(ret), core.Describe(ret.Results[0]))
+		}
+	}
+	r.Floor("R11.5", "exported accessors of Token", nAcc, 2)
 }
